@@ -63,6 +63,13 @@ def gen_cases(tier, seed):
                 yield Case(1909, [r, ty, nt], [], 'baudrate')
     for _ in range(5000 if tier == 'quick' else 500000):
         yield Case(1909, [rnd.randrange(1 << 24), rnd.choice([1, 3]), rnd.choice([0, 1])], [], 'baudrate random 24-bit')
+    # where the baud-rate codec travels: services.LinkControl.make_request, every identifier byte / standard rate / boundary rate x type x
+    # control type (a custom identifier is what the Identifier type is for: it goes out as that byte with the fixed-baud-rate control type)
+    for ct in (1, 2, 3, 0):
+        for ty in (0, 1, 2, 3):
+            for r in list(range(0, 256)) + sorted(ISO_BAUD) + [256, 0xFFFF, 0x10000, 0xFFFFFF, 0x1000000]:
+                yield Case(1911, [ct, 1, r, ty], [], 'LinkControl.make_request')
+        yield Case(1911, [ct, 0, 0, 0], [], 'LinkControl.make_request')
     dtcs = sorted(set([0, 1, 0xFF, 0x100, 0xFFFF, 0x10000, 0xFFFFFF, 0x123456, 0x654321, 0x010203, 0x800000, 0x7FFFFF]
                       + [1 << k for k in range(24)] + [(1 << k) - 1 for k in range(25)]))
     for d in dtcs:
@@ -157,6 +164,9 @@ def impl(c):
         return [0, b.baudrate, b.baudtype] + m(lambda: enc_bytes(b.get_bytes())) + m(lambda: [b.effective_baudrate()]) + m(nt)
     if e == 1910:
         return m(lambda: enc_bytes(ReadDTCInformation.pack_dtc(a[0])))
+    if e == 1911:
+        from udsoncan.services import LinkControl
+        return m(lambda: enc_bytes(LinkControl.make_request(a[0], Baudrate(a[2], a[3]) if a[1] == 1 else None).get_payload()))
     raise RuntimeError('bad entry')
 
 
@@ -285,6 +295,32 @@ def oracle(c, r):
             if len(b) != 3 or int.from_bytes(b, 'big') != d:
                 return ('pack-dtc', 'pack_dtc(%#08x) = %s' % (d, b.hex()))
         return None
+    if e == 1911:
+        ct, has, rate, ty = a
+        if has != 1 or ct not in (1, 2) or rate < 0:
+            return None
+        inv = {v: k for k, v in ISO_BAUD.items()}
+        t = ty if ty != 3 else (0 if rate in ISO_BAUD else (2 if rate <= 0xFF else 1))
+        want = None
+        if ct == 1:        # one byte: the identifier itself when the caller gave an identifier, the standard identifier of the rate otherwise
+            if t == 2 and rate <= 0xFF:
+                want = bytes([0x87, 1, rate])
+            elif t in (0, 1) and rate in ISO_BAUD and (t == 0 or rate <= 0xFFFFFF):
+                want = bytes([0x87, 1, ISO_BAUD[rate]])
+        else:              # three bytes: the bit rate
+            eff = inv.get(rate) if t == 2 else rate
+            if t == 2 and rate > 0xFF:
+                eff = None
+            if t == 0 and rate not in ISO_BAUD:
+                eff = None
+            if eff is not None and eff <= 0xFFFFFF:
+                want = bytes([0x87, 2]) + eff.to_bytes(3, 'big')
+        got = bytes(r[2:2 + r[1]]) if r and r[0] == 0 else None
+        if want is not None and got != want:
+            return ('linkcontrol-baud', 'LinkControl.make_request(%d, Baudrate(%d, type %d)) gives %s, the encoding is %s' % (ct, rate, ty, got.hex() if got is not None else 'an exception (%r)' % r[:1], want.hex()))
+        if want is None and got is not None:
+            return ('linkcontrol-baud-accepts', 'LinkControl.make_request(%d, Baudrate(%d, type %d)) gives %s for a baud rate that has no such encoding' % (ct, rate, ty, got.hex()))
+        return None
     return None
 
 
@@ -298,4 +334,4 @@ def describe(c):
     return {1901: 'Dtc.Status', 1902: 'Dtc.Severity', 1903: 'Dtc.DtcClass', 1904: 'CommunicationType(subnet, normal, nm)',
             1905: 'CommunicationType.from_byte', 1906: 'DataFormatIdentifier(c, e)', 1907: 'DataFormatIdentifier.from_byte',
             1908: 'AddressAndLengthFormatIdentifier(address_format, memorysize_format)', 1909: 'Baudrate(rate, type) / make_new_type(nt)',
-            1910: 'ReadDTCInformation.pack_dtc'}[c.entry] + ' %r' % c.ints
+            1910: 'ReadDTCInformation.pack_dtc', 1911: 'services.LinkControl.make_request(control_type, has baudrate, rate, type)'}[c.entry] + ' %r' % c.ints
